@@ -44,7 +44,9 @@ CtorD == N("func", "__init__", {"ctor"}, << Param("self"), Param("x"), N("attr",
 Redef(f) == [f EXCEPT !.flags = f.flags \cup {"redefined"}]
 \* a class defined twice: the earlier definition has an attribute zattr and a method zmeth that the later one lacks
 EarlierClass(c) == N("class", c.name, {"earlier"}, << N("attr", "zattr", {"static"}, <<>>), N("func", "zmeth", {}, << Param("self") >>) >>)
-Earlier(f) == IF f.k = "class" THEN EarlierClass(f) ELSE [f EXCEPT !.flags = (f.flags \ {"redefined"}) \cup {"earlier"}, !.ch = (IF f.ch # <<>> /\ f.ch[1].name = "self" THEN << Param("self") >> ELSE <<>>) \o << Param("zold") >>]
+\* an enum defined twice: the earlier definition has a member ZZ that the later one lacks
+EarlierEnum(e) == N("enum", e.name, {"earlier"}, << N("inst", "ZZ", {}, <<>>) >>)
+Earlier(f) == IF f.k = "class" THEN EarlierClass(f) ELSE IF f.k = "enum" THEN EarlierEnum(f) ELSE [f EXCEPT !.flags = (f.flags \ {"redefined"}) \cup {"earlier"}, !.ch = (IF f.ch # <<>> /\ f.ch[1].name = "self" THEN << Param("self") >> ELSE <<>>) \o << Param("zold") >>]
 EnumN(name, n) == N("enum", name, {}, [ j \in 1..n |-> N("inst", IF j = 1 THEN "AA" ELSE "BB", {}, <<>>) ])
 
 InnerKinds == {"none", "class", "class2", "privclass", "enum"}
@@ -85,7 +87,7 @@ EnumB(name, n, base) == [ EnumN(name, n) EXCEPT !.flags = { "base-" \o base } ]
 Enums == { EnumN("Col", 2), EnumN("Empty", 0), EnumN("_PCol", 2) }
 EnumsB == { EnumB("SCol", 2, "StrEnum"), EnumB("FCol", 2, "Flag"), EnumB("GCol", 2, "IntFlag"), EnumB("ICol", 2, "IntEnum") }    \* alone in their module only
 
-Unusual == { N("func", "fun", {"redefined"}, << Param("a"), Param("b"), Res >>), N("func", "noargs", {"redefined"}, <<>>),
+Unusual == { Redef(EnumN("Col", 2)), N("func", "fun", {"redefined"}, << Param("a"), Param("b"), Res >>), N("func", "noargs", {"redefined"}, <<>>),
              N("class", "Cls", {"super-none"}, << ClassAttrC, CtorD, Redef(Method("inst")), Method("static") >>),
              N("class", "Cls", {"super-none"}, << ClassAttr, CtorD >>), N("class", "Cls", {"super-none", "redefined"}, << ClassAttr, Ctor, Method("inst") >>), N("class", "Cls", {"super-none"}, << ClassAttrC, Redef(Method("static")) >>) }
 Modules(tier) ==
@@ -132,6 +134,7 @@ Step ==
                  kids == { [kind |-> c.k, id |-> id \o "/" \o c.name] : c \in { e[3][j] : j \in { j \in 1..Len(e[3]) : e[3][j].k \in {"param", "result"} } } }
                  stale == IF "redefined" \notin n.flags THEN {}      \* what only the earlier definition had
                           ELSE IF n.k = "class" THEN { [kind |-> "attr", id |-> id \o "/zattr"], [kind |-> "func", id |-> id \o "/zmeth"], [kind |-> "param", id |-> id \o "/zmeth/self"] }
+                          ELSE IF n.k = "enum" THEN { [kind |-> "inst", id |-> id \o "/ZZ"] }
                           ELSE { [kind |-> "param", id |-> id \o "/zold"] }
              IN /\ stack' = Append(stack, [id |-> id, name |-> n.name, k |-> n.k])
                 /\ api' = (api \ stale) \cup kids
@@ -148,7 +151,7 @@ Spec == Init /\ [][Next]_vars /\ WF_vars(Next)
 Done == ev > Len(Events(mod))
 
 Inv_C12_NoStale == Done => \A a \in api : \A o \in owns : o[2] = a.id => \E b \in api : b.id = o[1]
-Inv_C12_LaterWins == Done => ~\E a \in api : \E o \in owns : o[2] = a.id /\ a.id \in { o[1] \o "/zold", o[1] \o "/zattr", o[1] \o "/zmeth" }
+Inv_C12_LaterWins == Done => ~\E a \in api : \E o \in owns : o[2] = a.id /\ a.id \in { o[1] \o "/zold", o[1] \o "/zattr", o[1] \o "/zmeth", o[1] \o "/ZZ" }
 Inv_C12_Balanced == Done => stack = <<>>
 Inv_C12_NoDup == \A a, b \in api : a.id = b.id => a = b
 Inv_C12_OneOwner == Done => \A a \in api : a.kind # "module" => Cardinality({ o \in owns : o[2] = a.id }) = 1
